@@ -296,6 +296,10 @@ impl Ctx {
         }
     }
 
+    pub fn has_violations(&self) -> bool {
+        !self.violations.lock().unwrap().is_empty()
+    }
+
     pub fn set_watch_limit_ms(&self, ms: u64) {
         WATCH_LIMIT_MS.store(ms, Ordering::Relaxed);
     }
